@@ -60,6 +60,11 @@ type In struct {
 	Val  string `json:"val,omitempty"`  // value written (unique per write)
 	Exp  string `json:"exp,omitempty"`  // Cas: expected version; Wait: the version given
 	Gone bool   `json:"gone,omitempty"` // the record written carries an expiry that has already passed: logically it is absent at once
+	// ExpAt: the record written carries an expiry shortly ahead (same time base as Call/Ret, ns; 0 = none or far
+	// away). From that instant on the record MAY be gone: an operation that returns at or after it may find the key
+	// absent; once absent it stays absent until the next write (a backend whose clock lags may still serve it).
+	ExpAt int64 `json:"exp_at,omitempty"`
+	RetAt int64 `json:"-"` // filled from Rec.Ret when the history is handed to the checker
 }
 
 type Out struct {
@@ -83,9 +88,10 @@ func (r Rec) String() string {
 }
 
 type kvState struct {
-	E   bool
-	Val string
-	Ver string // "?<prev>" = written by PutMany and not observed yet; <prev> is the version it replaced ("" if none / unknown)
+	E     bool
+	Val   string
+	Ver   string // "?<prev>" = written by PutMany and not observed yet; <prev> is the version it replaced ("" if none / unknown)
+	ExpAt int64  // see In.ExpAt
 }
 
 func symbolic(v string) bool { return len(v) > 0 && v[0] == '?' }
@@ -95,7 +101,7 @@ func written(in In, ver string) kvState {
 	if in.Gone {
 		return kvState{}
 	}
-	return kvState{true, in.Val, ver}
+	return kvState{true, in.Val, ver, in.ExpAt}
 }
 
 // symAfter is the version state after a PutMany item replaced st.
@@ -129,7 +135,22 @@ var KVModel = porcupine.Model{
 	Step: func(state, input, output any) (bool, any) {
 		st := state.(kvState)
 		in := input.(In)
+		ok, ns := kvStep(st, in, output.(Out))
+		if !ok && st.E && st.ExpAt != 0 && in.RetAt >= st.ExpAt {
+			// the record's short expiry has passed by the time this operation returned: it may have found the key absent
+			ok, ns = kvStep(kvState{}, in, output.(Out))
+		}
+		return ok, ns
+	},
+	DescribeOperation: func(input, output any) string {
+		in := input.(In)
 		out := output.(Out)
+		return fmt.Sprintf("%s(%s,%s,%s)->%s,%s,%s", KindNames[in.Kind], in.Key, in.Val, in.Exp, ErrNames[out.Err], out.Val, out.Ver)
+	},
+}
+
+func kvStep(st kvState, in In, out Out) (bool, kvState) {
+	{
 		if out.Err == EOther {
 			// an undocumented outcome is reported by the outcome-class monitor; for the order search it has no effect
 			return true, st
@@ -158,7 +179,7 @@ var KVModel = porcupine.Model{
 				if prev := st.Ver[1:]; prev != "" && prev == out.Ver {
 					return false, st
 				}
-				return true, kvState{true, st.Val, out.Ver}
+				return true, kvState{true, st.Val, out.Ver, st.ExpAt}
 			}
 			return st.Ver == out.Ver, st
 		case KPut:
@@ -207,19 +228,16 @@ var KVModel = porcupine.Model{
 			return false, st
 		}
 		return false, st
-	},
-	DescribeOperation: func(input, output any) string {
-		in := input.(In)
-		out := output.(Out)
-		return fmt.Sprintf("%s(%s,%s,%s)->%s,%s,%s", KindNames[in.Kind], in.Key, in.Val, in.Exp, ErrNames[out.Err], out.Val, out.Ver)
-	},
+	}
 }
 
 // Check runs porcupine on the recorded history. It returns Ok / Illegal / Unknown.
 func Check(recs []Rec, timeout time.Duration) porcupine.CheckResult {
 	ops := make([]porcupine.Operation, len(recs))
 	for i, r := range recs {
-		ops[i] = porcupine.Operation{ClientId: r.Client, Input: r.In, Call: r.Call, Output: r.Out, Return: r.Ret}
+		in := r.In
+		in.RetAt = r.Ret
+		ops[i] = porcupine.Operation{ClientId: r.Client, Input: in, Call: r.Call, Output: r.Out, Return: r.Ret}
 	}
 	res, _ := porcupine.CheckOperationsVerbose(KVModel, ops, timeout)
 	return res
